@@ -12,6 +12,8 @@ import (
 
 	"verif/internal/evid"
 	"verif/props/c01"
+	"verif/props/c06"
+	"verif/props/c12"
 )
 
 type prop struct {
@@ -22,7 +24,11 @@ type prop struct {
 
 var props = map[string]prop{
 	"C01": {"exploration", c01.Run, c01.Replay},
+	"C06": {"model_checking", c06.Run, c06.Replay},
+	"C12": {"exploration", c12.Run, c12.Replay},
 }
+
+var ballast []byte
 
 func main() {
 	if len(os.Args) < 2 {
@@ -54,6 +60,7 @@ func main() {
 		os.Exit(2)
 	}
 	debug.SetGCPercent(800)
+	ballast = make([]byte, 1<<30) // never touched: only raises the GC trigger so tiny-heap enumerations do not collect continuously
 	r := evid.New(id, tier, p.level)
 	if replay != "" {
 		raw, err := evid.LoadReplay(replay)
